@@ -1634,6 +1634,26 @@ class NoPanic:
             if len(ds) != 1 or ds[0][1] != "term":
                 break
             tt0 = fn.blocks[ds[0][0]].term
+            if tt0["k"] == "call" and "core::convert::num" in tt0["fn"].get("path", "") and callee_name(tt0["fn"].get("path", "")) in ("try_from", "try_into") and tt0["args"]:
+                # an integer conversion `u32::try_from(n)`: Ok exactly when n fits the target type
+                tgt_ = (tt0["fn"].get("self_ty") or "").strip()
+                rng_ = values.INT_RANGES.get(tgt_)
+                src_ = ev.call_args(ds[0][0])[0]
+                if rng_ is not None:
+                    up_ = B.upper(src_, ds[0][0])
+                    lo_ = B.lower(src_, ds[0][0])
+                    from lib import iter_elem as _ie
+                    ie_ = _ie(self.W, self.W.expand(src_))
+                    if ie_ and ie_.get("what") == "index":
+                        # the position of an element in a container: below the container's (bounded) length
+                        up_ = min(up_, B.upper(("len", ie_["container"]), ds[0][0]) - 1)
+                        lo_ = max(lo_, 0)
+                    if rng_[0] <= lo_ and up_ <= rng_[1]:
+                        return self.rec(fn, b, name, coarse(P, src_), "proved", "the converted value lies in %s..%s, within %s" % (lo_, up_, tgt_))
+                    if False:
+                        return self.rec(fn, b, name, coarse(P, src_), "proved", "the converted value lies in %s..%s, within %s" % (B.lower(src_, ds[0][0]), B.upper(src_, ds[0][0]), tgt_))
+                    if tgt_ in ("usize", "u64", "u128") and str((tt0.get("arg_tys") or [""])[0]) in ("u8", "u16", "u32", "usize", "u64") and not (tgt_ == "usize" and str(tt0["arg_tys"][0]) in ("u64",) and False):
+                        pass
             if tt0["k"] == "call" and callee_name(tt0["fn"].get("path", "")) in ("map", "ok", "ok_or", "ok_or_else", "as_ref", "as_mut", "as_deref", "copied", "cloned", "map_err") \
                     and ("option::Option" in tt0["fn"].get("path", "") or "result::Result" in tt0["fn"].get("path", "")) and tt0["args"]:
                 x = ev.call_args(ds[0][0])[0]
